@@ -13,6 +13,7 @@ import (
 	"io"
 	"math/rand"
 	"net"
+	"os"
 	"regexp"
 	"sort"
 	"strconv"
@@ -59,7 +60,10 @@ type smtpEnv struct {
 	hookRcpt   map[string]hookAns     // by candidate RCPT address
 	hookStored map[string]inboundRepl // by subject
 	failBoxes  []string               // mailboxes whose AddMessage fails
+	debug      bool                   // config.SMTP.Debug (-netdebug)
 }
+
+var quietStdout sync.Once
 
 // faultyStore fails AddMessage for chosen mailboxes (an I/O fault of the back-end); everything else passes through.
 type faultyStore struct {
@@ -106,6 +110,14 @@ func (e *smtpEnv) build() (*smtpStack, error) {
 	root.SMTP.Timeout = 20 * time.Second
 	root.SMTP.TLSEnabled = false
 	root.SMTP.ForceTLS = false
+	root.SMTP.Debug = e.debug // -netdebug: the session dumps its traffic (fmt.Printf); must not change a single reply or stored byte
+	if e.debug {
+		quietStdout.Do(func() {
+			if f, err := os.OpenFile(os.DevNull, os.O_WRONLY, 0); err == nil {
+				os.Stdout = f
+			}
+		})
+	}
 	host := extension.NewHost()
 	if len(e.hookMail) > 0 {
 		host.Events.BeforeMailFromAccepted.AddListener("verif", func(s event.SMTPSession) *event.SMTPResponse {
@@ -681,7 +693,8 @@ type smtpDialogue struct {
 var smtpLocals = []string{"alice", "Bob", "carol+tag", "dave.x", "\"quoted user\"", "eve\\@x", "x", "+onlyext", "a..b", ".lead", "trail.", "MiXeD"}
 
 func (g *smtpGen) domainPool() []string {
-	p := []string{"example.com", "Example.COM", "other.org", "sub.example.com", "[127.0.0.1]", "[IPv6:2001:db8::1]", "bad..dom", "-x.com"}
+	p := []string{"example.com", "Example.COM", "other.org", "sub.example.com", "[127.0.0.1]", "[IPv6:2001:db8::1]", "bad..dom", "-x.com",
+		"example.com.", "Sub.Example.Com.", strings.Repeat("a234567890.", 12) + "example"} // root-dot spellings; a 127-byte domain
 	for _, l := range [][]string{g.env.pol.acc, g.env.pol.rej, g.env.pol.sto, g.env.pol.dis} {
 		for _, d := range l {
 			p = append(p, d, recase(g.r, d))
@@ -730,12 +743,18 @@ func (g *smtpGen) body() (wire [][]byte, decoded []byte) {
 	hdrs := []string{"Subject: " + subj}
 	if g.r.Intn(3) > 0 {
 		hdrs = append(hdrs, "From: Sender Name <hdrfrom@src.example>")
+	} else if g.r.Intn(2) == 0 {
+		// From headers enmime answers with no address and no error, several addresses, an error, encoded words
+		hdrs = append(hdrs, []string{"From: undisclosed-senders:;", "From: a@x.example, B <b@y.example>", "From: ", "From: <>", "From: =?utf-8?q?J=C3=B6rg?= <j@x.example>",
+			"From: Team: one@t.example, two@t.example;", "From: (comment only)", "From: empty:;, other:;"}[g.r.Intn(8)])
 	}
-	switch g.r.Intn(4) {
+	switch g.r.Intn(5) {
 	case 0:
 		hdrs = append(hdrs, "To: one@to.example, Two <two@to.example>")
 	case 1:
 		hdrs = append(hdrs, "To: not an address list <<")
+	case 2:
+		hdrs = append(hdrs, []string{"To: undisclosed-recipients:;", "To: ", "To: list: a@l.example;, b@l.example", "To: =?utf-8?b?w6k=?= <e@to.example>"}[g.r.Intn(4)])
 	}
 	if g.r.Intn(25) == 0 {
 		hdrs = []string{"Subject " + subj + " no colon", " continuation without header"}
@@ -925,6 +944,7 @@ func (p smtpProfile) randEnv(r *rand.Rand) *smtpEnv {
 	if p.withCap {
 		e.cap = []int{0, 1, 2}[r.Intn(3)]
 	}
+	e.debug = r.Intn(7) == 0
 	return e
 }
 
